@@ -421,14 +421,14 @@ Proof. exact parse_mismatch_valueerror. Qed.
 Print Assumptions from_format_mismatch_raises.
 
 Theorem from_format_all_fields_as_given : forall rs y m d hh mi ss us tz now,
-  check_parsed rs (mkparsed (Some y) (Some m) (Some d) (Some hh) (Some mi) (Some ss) (Some us) tz None None None None) now
+  check_parsed rs (mkparsed (Some y) (Some m) (Some d) (Some hh) (Some mi) (Some ss) (Some us) tz None None None None None) now
   = Ok (y, m, d, hh, mi, ss, us, tz).
 Proof. exact check_parsed_all. Qed.
 Print Assumptions from_format_all_fields_as_given.
 
 (* fields absent from the format: the date comes from `now` when no date field is given, a smaller unit restarts at 1 when a larger one is given, time fields default to 0 *)
 Theorem from_format_time_only_fills_date_from_now : forall rs hh mi ss us tz now,
-  check_parsed rs (mkparsed None None None hh mi ss us tz None None None None) now
+  check_parsed rs (mkparsed None None None hh mi ss us tz None None None None None) now
   = Ok (n_year now, n_month now, n_day now,
         match hh with Some v => v | None => 0 end, match mi with Some v => v | None => 0 end,
         match ss with Some v => v | None => 0 end, match us with Some v => v | None => 0 end, tz).
@@ -436,24 +436,24 @@ Proof. exact check_parsed_time_only. Qed.
 Print Assumptions from_format_time_only_fills_date_from_now.
 
 Theorem from_format_year_only : forall rs y now,
-  check_parsed rs (mkparsed (Some y) None None None None None None None None None None None) now = Ok (y, 1, 1, 0, 0, 0, 0, None).
+  check_parsed rs (mkparsed (Some y) None None None None None None None None None None None None) now = Ok (y, 1, 1, 0, 0, 0, 0, None).
 Proof. exact check_parsed_year_only. Qed.
 Print Assumptions from_format_year_only.
 
 Theorem from_format_month_day_fills_year_from_now : forall rs m d now,
   m <> 0 -> d <> 0 ->
-  check_parsed rs (mkparsed None (Some m) (Some d) None None None None None None None None None) now = Ok (n_year now, m, d, 0, 0, 0, 0, None).
+  check_parsed rs (mkparsed None (Some m) (Some d) None None None None None None None None None None) now = Ok (n_year now, m, d, 0, 0, 0, 0, None).
 Proof. exact check_parsed_month_day. Qed.
 Print Assumptions from_format_month_day_fills_year_from_now.
 
 Theorem from_format_month_only : forall rs m now,
-  check_parsed rs (mkparsed None (Some m) None None None None None None None None None None) now = Ok (n_year now, m, 1, 0, 0, 0, 0, None).
+  check_parsed rs (mkparsed None (Some m) None None None None None None None None None None None) now = Ok (n_year now, m, 1, 0, 0, 0, 0, None).
 Proof. exact check_parsed_month_only. Qed.
 Print Assumptions from_format_month_only.
 
 Theorem from_format_day_only_fills_year_month_from_now : forall rs d now,
   d <> 0 ->
-  check_parsed rs (mkparsed None None (Some d) None None None None None None None None None) now = Ok (n_year now, n_month now, d, 0, 0, 0, 0, None).
+  check_parsed rs (mkparsed None None (Some d) None None None None None None None None None None) now = Ok (n_year now, n_month now, d, 0, 0, 0, 0, None).
 Proof. exact check_parsed_day_only. Qed.
 Print Assumptions from_format_day_only_fills_year_month_from_now.
 
@@ -552,3 +552,153 @@ Theorem from_format_inverts_format : forall (rs : bool) (zones : list str) (now 
   Ok (t_year t, t_month t, t_day t, t_hour t, t_minute t, t_second t, t_micro t, Some (TzFixed (t_off t))).
 Proof. exact from_format_inverts_iso_full. Qed.
 Print Assumptions from_format_inverts_format.
+
+(* ------------------------------------------------------------ the timestamp tokens X / x through from_format *)
+From PV Require Import Gen.Helpers Model.RustHelpers Proofs.LocalTime Proofs.C08Timestamp.
+
+(* what format() renders for X is read back into parsed["timestamp"] as that second count (n below 10^15 in absolute value: every DateTime) *)
+Theorem from_format_X_reads_the_rendered_count : forall zones n p, Z.abs n < 1000000000000000 ->
+  get_parsed_value zones [88] (render_d n) p = Ok (set_ts (Some (n, 0)) p).
+Proof. exact parsed_X. Qed.
+Print Assumptions from_format_X_reads_the_rendered_count.
+
+(* ... and for x (milliseconds): the seconds are floored, the microseconds are read off the ABSOLUTE value *)
+Theorem from_format_x_reads_the_rendered_count : forall zones n p, Z.abs n < 1000000000000000 ->
+  get_parsed_value zones [120] (render_d n) p = Ok (set_ts (Some (n / 1000, (Z.abs n mod 1000) * 1000)) p).
+Proof. exact parsed_x. Qed.
+Print Assumptions from_format_x_reads_the_rendered_count.
+
+(* _check_parsed with a timestamp, in EITHER backend (the translated pure-Python helpers.local_time / the model of the compiled one):
+   the fields are the standard library's broken-down time of that second (Proofs/LocalTime.v local_time_spec = ord2ymd of the day
+   number + hour/minute/second of the remainder), tz = None, for every second of the years 1..9999 *)
+Theorem from_format_timestamp_is_broken_down_by_the_calendar : forall rs p now S us,
+  p_ts p = Some (S, us) -> -62135596800 <= S <= 253402300799 ->
+  check_parsed rs p now = Ok (with_no_zone (local_time_spec S us)).
+Proof. exact check_parsed_timestamp. Qed.
+Print Assumptions from_format_timestamp_is_broken_down_by_the_calendar.
+
+(* the second count of a UTC DateTime breaks down to that DateTime's own fields *)
+Theorem timestamp_of_utc_datetime_breaks_down_to_its_fields : forall t us, utc_fields_ok t ->
+  local_time_spec (int_timestamp t) us = (t_year t, t_month t, t_day t, t_hour t, t_minute t, t_second t, us).
+Proof. exact local_time_of_int_timestamp. Qed.
+Print Assumptions timestamp_of_utc_datetime_breaks_down_to_its_fields.
+
+(* from_format(dt.format("X"), "X") after the matching step: dt's fields to the second, no zone — every UTC DateTime of the years 1..9999,
+   both backends; for a DateTime in another zone the calendar fields of its instant (from_format_X_fields) *)
+Theorem from_format_inverts_X : forall rs zones now t, utc_fields_ok t -> -62135596800 <= int_timestamp t <= 253402300799 ->
+  bind (get_parsed_value zones [88] (render_d (int_timestamp t)) parsed0) (fun p => check_parsed rs p now)
+  = Ok (t_year t, t_month t, t_day t, t_hour t, t_minute t, t_second t, 0, None).
+Proof. exact from_format_inverts_X_after_matching. Qed.
+Print Assumptions from_format_inverts_X.
+
+Theorem from_format_X_any_zone : forall rs zones now t, -62135596800 <= int_timestamp t <= 253402300799 ->
+  bind (get_parsed_value zones [88] (render_d (int_timestamp t)) parsed0) (fun p => check_parsed rs p now)
+  = Ok (with_no_zone (local_time_spec (int_timestamp t) 0)).
+Proof. exact from_format_X_fields. Qed.
+Print Assumptions from_format_X_any_zone.
+
+(* KNOWN FINDING x-negative-fraction.  "from_format(dt.format('x'), 'x') has dt's fields to the millisecond" is FALSE before the epoch:
+   1969-12-31T23:59:59.750 renders "-250" and comes back as .250 (the whole path, regex matching included, both backends) *)
+Theorem from_format_x_before_epoch_refuted :
+  format [101;110] x_witness [120] = Ok [45;50;53;48] /\
+  roundtrip false [101;110] x_witness [120] = Ok (1969, 12, 31, 23, 59, 59, 250000, None) /\
+  roundtrip true [101;110] x_witness [120] = Ok (1969, 12, 31, 23, 59, 59, 250000, None).
+Proof. exact x_witness_roundtrip. Qed.
+Print Assumptions from_format_x_before_epoch_refuted.
+
+(* the region where it holds: at or after the epoch, or no millisecond part *)
+Theorem from_format_inverts_x_partial : forall rs zones now t, utc_fields_ok t -> 0 <= t_micro t < 1000000 ->
+  -62135596800 <= int_timestamp t <= 253402300799 ->
+  0 <= int_timestamp t \/ t_micro t / 1000 = 0 ->
+  bind (get_parsed_value zones [120] (render_d (x_value t)) parsed0) (fun p => check_parsed rs p now)
+  = Ok (t_year t, t_month t, t_day t, t_hour t, t_minute t, t_second t, t_micro t / 1000 * 1000, None).
+Proof. exact from_format_inverts_x_region. Qed.
+Print Assumptions from_format_inverts_x_partial.
+
+(* ... and exactly what comes back outside it: the right second, the milliseconds mirrored (the known() predicate of the harness) *)
+Theorem from_format_x_before_epoch_mirrors_the_milliseconds : forall rs zones now t, utc_fields_ok t -> 0 <= t_micro t < 1000000 ->
+  -62135596800 <= int_timestamp t < 0 -> t_micro t / 1000 <> 0 ->
+  bind (get_parsed_value zones [120] (render_d (x_value t)) parsed0) (fun p => check_parsed rs p now)
+  = Ok (t_year t, t_month t, t_day t, t_hour t, t_minute t, t_second t, (1000 - t_micro t / 1000) * 1000, None).
+Proof. exact from_format_x_before_epoch. Qed.
+Print Assumptions from_format_x_before_epoch_mirrors_the_milliseconds.
+
+(* the hypotheses of the three theorems above are satisfiable (by the witness of the finding) *)
+Theorem from_format_x_hypotheses_satisfiable : utc_fields_ok x_witness /\ 0 <= t_micro x_witness < 1000000 /\ -62135596800 <= int_timestamp x_witness < 0.
+Proof. exact x_witness_ok. Qed.
+Print Assumptions from_format_x_hypotheses_satisfiable.
+
+(* the WHOLE path — tokenisation, pattern assembly, regex matching, _get_parsed_value, _check_parsed, local_time — on the structurally
+   special instants (first and last representable seconds, the epoch, the last day of a century inside and at the end of a 400-year
+   cycle, leap days, the 2^31 boundary), tokens X and x, both backends *)
+Theorem from_format_inverts_timestamps_at_special_instants : forall rs tok t, In t special_instants -> tok = [88] \/ tok = [120] ->
+  roundtrip rs [101;110] t tok = Ok (t_year t, t_month t, t_day t, t_hour t, t_minute t, t_second t, 0, None).
+Proof. exact special_instants_invert. Qed.
+Print Assumptions from_format_inverts_timestamps_at_special_instants.
+
+(* ------------------------------------------------------------ histories of the process (Model/FormatterSession.v) *)
+From PV Require Import Model.FormatterSession Proofs.C08Session.
+
+(* a set_locale that is rejected raises ValueError and leaves the configuration as it was *)
+Theorem failed_set_keeps_configuration : forall st rs now n, loads n = false -> step rs now st (FSet n) = (st, OUnit (Raise E_ValueError)).
+Proof. exact failed_set_keeps. Qed.
+Print Assumptions failed_set_keeps_configuration.
+
+(* format / from_format / get_locale never change the configuration *)
+Theorem formatting_leaves_no_trace : forall rs now st o, is_set o = false -> fst (step rs now st o) = st.
+Proof. exact non_set_keeps_state. Qed.
+Print Assumptions formatting_leaves_no_trace.
+
+(* the configuration after any history is the name of the last set_locale that was accepted *)
+Theorem configuration_is_last_accepted_set : forall rs now ops st, final rs now st ops = last_good_set ops st.
+Proof. exact final_is_last_good_set. Qed.
+Print Assumptions configuration_is_last_accepted_set.
+
+(* the output of a call depends on the history before it only through that name ... *)
+Theorem result_depends_on_history_only_through_the_default_locale : forall rs now hist st o,
+  run rs now st (hist ++ [o]) = run rs now st hist ++ [snd (step rs now (last_good_set hist st) o)].
+Proof. exact output_after_history. Qed.
+Print Assumptions result_depends_on_history_only_through_the_default_locale.
+
+(* ... so two histories with the same last accepted name cannot be told apart by anything that follows *)
+Theorem result_independent_of_history : forall rs now h1 h2 st1 st2 rest,
+  last_good_set h1 st1 = last_good_set h2 st2 ->
+  run rs now (final rs now st1 h1) rest = run rs now (final rs now st2 h2) rest.
+Proof. exact history_independent. Qed.
+Print Assumptions result_independent_of_history.
+
+(* a call that names its locale does not depend on the configuration at all *)
+Theorem explicit_locale_independent_of_configuration : forall rs now st1 st2 c n zones t fmt time,
+  snd (step rs now st1 (FRound (Some (c :: n)) zones t fmt)) = snd (step rs now st2 (FRound (Some (c :: n)) zones t fmt)) /\
+  snd (step rs now st1 (FFormat (Some (c :: n)) t fmt)) = snd (step rs now st2 (FFormat (Some (c :: n)) t fmt)) /\
+  snd (step rs now st1 (FParse (Some (c :: n)) zones time fmt)) = snd (step rs now st2 (FParse (Some (c :: n)) zones time fmt)).
+Proof. exact explicit_locale_ignores_state. Qed.
+Print Assumptions explicit_locale_independent_of_configuration.
+
+(* relying on the default locale is the same as naming it *)
+Theorem default_locale_same_as_explicit : forall rs now c n zones t fmt time,
+  snd (step rs now (c :: n) (FRound None zones t fmt)) = snd (step rs now (c :: n) (FRound (Some (c :: n)) zones t fmt)) /\
+  snd (step rs now (c :: n) (FFormat None t fmt)) = snd (step rs now (c :: n) (FFormat (Some (c :: n)) t fmt)) /\
+  snd (step rs now (c :: n) (FParse None zones time fmt)) = snd (step rs now (c :: n) (FParse (Some (c :: n)) zones time fmt)).
+Proof. exact default_is_explicit. Qed.
+Print Assumptions default_locale_same_as_explicit.
+
+(* the round trip inside a session IS the stateless round trip (the object of from_format_inverts_format) under the effective locale *)
+Theorem session_roundtrip_is_the_stateless_roundtrip : forall rs now st loc zones t fmt,
+  snd (step rs now st (FRound loc zones t fmt)) =
+  ORound (bind (format (normalize_locale (eff st loc)) t fmt)
+               (fun s => Ok (s, parse rs zones (normalize_locale (eff st loc)) now s fmt))).
+Proof. exact session_roundtrip_is_parse_of_format. Qed.
+Print Assumptions session_roundtrip_is_the_stateless_roundtrip.
+
+(* a concrete history: set_locale('fr'), round trip, set_locale('de'), the same format again, set_locale('tlh') REJECTED, once more, get_locale():
+   every default-locale round trip of "dddd D MMMM YYYY" gives 2024-02-29 back and the configuration ends as 'de' *)
+Theorem session_example_two_default_locales :
+  map (fun o => match o with
+                | ORound (Ok (_, Ok v)) => Some v
+                | _ => None end) (run false (mknow 2021 3 4) initial ex_ops)
+  = [None; Some (2024, 2, 29, 0, 0, 0, 0, None); None; Some (2024, 2, 29, 0, 0, 0, 0, None); None; Some (2024, 2, 29, 0, 0, 0, 0, None); None]
+  /\ nth 4 (run false (mknow 2021 3 4) initial ex_ops) (OStr (Ok [])) = OUnit (Raise E_ValueError)
+  /\ nth 6 (run false (mknow 2021 3 4) initial ex_ops) (OUnit (Ok tt)) = OStr (Ok [100;101]).
+Proof. exact example_session. Qed.
+Print Assumptions session_example_two_default_locales.
